@@ -446,6 +446,8 @@ func MillerLoopFixedQ(P []G1Affine, lines [][2][len(LoopCounter) - 1]LineEvaluat
 	var result GT
 	result.SetOne()
 	var prodLines [5]fptower.E4
+	// line evaluations at P[k] are computed into l0, l1: the caller's lines are read-only
+	var l0, l1 LineEvaluationAff
 
 	// Compute ∏ᵢ { fᵢ_{x₀,Q}(P) }
 	for i := len(LoopCounter) - 2; i >= 0; i-- {
@@ -455,36 +457,36 @@ func MillerLoopFixedQ(P []G1Affine, lines [][2][len(LoopCounter) - 1]LineEvaluat
 
 		for k := 0; k < n; k++ {
 			// line evaluation at P[k]
-			lines[k][0][i].R1.
+			l0.R1.
 				MulByElement(
 					&lines[k][0][i].R1,
 					&yInv[k],
 				)
-			lines[k][0][i].R0.
+			l0.R0.
 				MulByElement(&lines[k][0][i].R0,
 					&xNegOverY[k],
 				)
 			if LoopCounter[i] == 0 {
 				// ℓ × res
 				result.MulBy01(
-					&lines[k][0][i].R1,
-					&lines[k][0][i].R0,
+					&l0.R1,
+					&l0.R0,
 				)
 
 			} else {
-				lines[k][1][i].R1.
+				l1.R1.
 					MulByElement(
 						&lines[k][1][i].R1,
 						&yInv[k],
 					)
-				lines[k][1][i].R0.
+				l1.R0.
 					MulByElement(
 						&lines[k][1][i].R0,
 						&xNegOverY[k],
 					)
 				prodLines = fptower.Mul01By01(
-					&lines[k][0][i].R1, &lines[k][0][i].R0,
-					&lines[k][1][i].R1, &lines[k][1][i].R0,
+					&l0.R1, &l0.R0,
+					&l1.R1, &l1.R0,
 				)
 				result.MulBy01245(&prodLines)
 			}
